@@ -365,3 +365,49 @@ class StatsOracle:
                      ("nothing_arrived", int(not R.pipes)), ("nothing_finished", int(not (lat[Q] or lat[I] or lat[B])))):
             if n:
                 R.probe(k, n)
+
+
+class UncontendedOracle:
+    """C06 last clause: an uncontended pipeline with enough memory finishes in exactly the ticks its operators
+    need under the CPUs it was actually given (chains only, so that containers cannot overlap)."""
+
+    def __init__(self):
+        self.asg = []
+
+    def on_tick(self, R, ex, sus, asg, res):
+        for a in asg:
+            self.asg.append((R.tick, [R.okey(o) for o in a.ops], a.cpu))
+        if any(r.failed() for r in res):
+            self.failed = True
+
+    def on_end(self, R, stats):
+        from . import model as M
+        from .common import Discard
+        if getattr(self, "failed", False) or len(R.pipes) != 1:
+            return
+        p = R.pipes[0]
+        rs = p.runtime_status()
+        pd = R.scn["pipes"][0]
+        tps = R.cfg["tps"]
+        ar = M.Arith(False)
+        need = 0
+        seen = set()
+        for (t, keys, cpu) in self.asg:
+            for (pi, oi) in keys:
+                segs = [(M.frac(b), law, None if mem is None else M.frac(mem), M.frac(read)) for (b, law, mem, read) in pd["ops"][oi]["segs"]]
+                need += len(M.op_plan(M.MOp((0, oi), segs, []), M.frac(cpu), tps, ar))   # may raise Discard (band)
+                seen.add(oi)
+        if len(seen) != len(pd["ops"]):
+            if rs.finish_tick is not None:
+                raise Violation("C06.uncontended.finished_unassigned", {"assigned_ops": sorted(seen)}, R.tick)
+            return
+        if rs.finish_tick is None:
+            if rs.arrival_tick + need <= R.tick:
+                raise Violation("C06.uncontended.not_finished", {"arrival": rs.arrival_tick, "ticks_needed": need, "last_tick": R.tick,
+                                                                 "algo": R.cfg["algo"]}, R.tick)
+            return
+        took = rs.finish_tick - rs.arrival_tick + 1
+        R.probe("uncontended_checked")
+        if took != need:
+            raise Violation("C06.uncontended.ticks", {"algo": R.cfg["algo"], "multi": R.cfg["multi"], "took": took, "ticks_needed": need,
+                                                      "cpus": [c for _, _, c in self.asg]}, R.tick)
